@@ -1036,6 +1036,66 @@ impl Family for KingRing {
     }
 }
 
+/// STAR: the white king on a central square; in each of the eight directions nothing, or an own
+/// piece next to the king (knight, pawn, or a piece that moves along that line) with an enemy slider
+/// behind it: up to eight absolute pins at once, of both kinds, every combination. Black king in a
+/// corner. White to move.
+pub struct Star;
+impl Family for Star {
+    fn name(&self) -> String {
+        "STAR".into()
+    }
+    fn len(&self) -> u64 {
+        16 * 4u64.pow(8) * 2
+    }
+    fn decode(&self, mut i: u64) -> Option<Pos> {
+        let ks = (i % 16) as i8;
+        i /= 16;
+        let queens = i % 2 == 1;
+        i /= 2;
+        let (kf, kr) = (2 + ks % 4, 2 + ks / 4);
+        let mut p = Pos::empty();
+        p.board[sq_at(kf, kr)? as usize] = pc(WHITE, KING);
+        let dirs: [(i8, i8); 8] = [(1, 0), (-1, 0), (0, 1), (0, -1), (1, 1), (1, -1), (-1, 1), (-1, -1)];
+        for (d, &(df, dr)) in dirs.iter().enumerate() {
+            let opt = i % 4;
+            i /= 4;
+            if opt == 0 {
+                continue;
+            }
+            let orth = d < 4;
+            let own = match opt {
+                1 => pc(WHITE, KNIGHT),
+                2 => pc(WHITE, if orth { ROOK } else { BISHOP }),
+                _ => pc(WHITE, PAWN),
+            };
+            let near = sq_at(kf + df, kr + dr)?;
+            if own == pc(WHITE, PAWN) && (row_of(near) == 0 || row_of(near) == 7) {
+                return None;
+            }
+            let dist = if opt == 2 { 3 } else { 2 };
+            let far = sq_at(kf + dist * df, kr + dist * dr)?;
+            if p.board[near as usize] != EMPTY || p.board[far as usize] != EMPTY {
+                return None;
+            }
+            p.board[near as usize] = own;
+            p.board[far as usize] = pc(BLACK, if queens && d % 2 == 0 { QUEEN } else if orth { ROOK } else { BISHOP });
+        }
+        // the black king in the first corner that is free and gives a legal position
+        p.stm = WHITE;
+        for corner in [0u8, 7, 56, 63] {
+            if p.board[corner as usize] == EMPTY {
+                let mut q = p.clone();
+                q.board[corner as usize] = pc(BLACK, KING);
+                if q.is_legal_position() {
+                    return Some(q);
+                }
+            }
+        }
+        None
+    }
+}
+
 /// PAWN7: a white pawn on its 7th rank (every file), both kings, one further white piece and one
 /// black piece (every pair of kinds from Q R B N) anywhere, both sides to move: promotions and
 /// under-promotions with something to lose or to win on the way.
